@@ -142,7 +142,7 @@ func shuffleMaps(n *serixgen.Node, v reflect.Value) reflect.Value {
 	return out
 }
 
-const ruleBinary = "rapid draws a type shape (reflect-built nested structs with serix tags over a pool of named leaves, interfaces with uint8/uint32 codes, custom (de)serializers, embedded/inlined structs, slices/arrays/maps with all prefix widths and array rules) registered on a fresh serix.API, then a value (3/4 constructed to satisfy all rules, 1/4 free); each case runs validation off and on. Distinct by (shape, value, mode); non-trivial = shape depth >= 2 and >= 2 feature classes of {optional, interface, map, array of non-bytes, inlined/embedded, custom, lexically sorted slice, array rules}"
+const ruleBinary = "rapid draws a type shape (reflect-built nested structs with serix tags over a pool of named leaves, interfaces with uint8/uint32 codes, custom (de)serializers, embedded/inlined structs, slices/arrays/maps with all prefix widths and array rules) registered on a fresh serix.API, then a value (3/4 constructed to satisfy all rules, 1/4 free); each case runs validation off and on; Encode of the struct passed by value must equal Encode of a pointer to it. Distinct by (shape, value, mode); non-trivial = shape depth >= 2 and >= 2 feature classes of {optional, interface, map, array of non-bytes, inlined/embedded, custom, lexically sorted slice, array rules}"
 
 func TestBinaryRoundTrip(t *testing.T) {
 	const check = "binary_roundtrip"
@@ -227,6 +227,11 @@ func TestBinaryRoundTrip(t *testing.T) {
 			enc2 := c.Encode(v, validate)
 			if enc2.Err != nil || !bytes.Equal(enc2.Bytes, enc.Bytes) {
 				violation(rt, check, c, v, ex, "second Encode differs: %x (err %v)", enc2.Bytes, enc2.Err)
+			}
+			// the same value handed over as a struct instead of a pointer to it (everything below is then not addressable)
+			encV := c.EncodeByValue(v, validate)
+			if encV.Panic != nil || encV.Err != nil || !bytes.Equal(encV.Bytes, enc.Bytes) {
+				violation(rt, check, c, v, ex, "Encode of the struct passed by value differs from Encode of a pointer to it: %x (err %v, panic %v)", encV.Bytes, encV.Err, encV.Panic)
 			}
 			sh := shuffleMaps(c.Root, v)
 			enc3 := c.Encode(sh, validate)
